@@ -139,6 +139,11 @@ def len_controlled(b, bi, t):
 
 
 def run(ctx):
+    _run37(ctx)
+    check_counter_arith(ctx, ctx.facts())
+
+
+def _run37(ctx):
     ctx.level = "other"
     ctx.decides = ("API layer: every Result::unwrap/expect discharged or reviewed (R7a); every macro panic, Option::unwrap, index and panicking sequence-API call discharged by the transaction-open, "
                    "typestate, len-guard patterns or reviewed (R7d); caller-supplied ExIds flow only into exid_to_obj / exid_to_opid (R7e).")
@@ -264,3 +269,27 @@ def run(ctx):
                                 badu.append("field read at %s" % s["sp"])
         ctx.ob("R7e", np_, not badu, r["sp"], "object id only handed on (to a resolver or a callee checked here)" if not badu else "caller-supplied ExId inspected directly: %s" % badu[:3])
     ctx.floor("API functions taking an ExId", n_e, 30)
+
+
+def check_counter_arith(ctx, f):
+    """R7-counter: the sums that give a counter its displayed value wrap in every build"""
+    ctx.rule("R7-counter", "Op::fix_counter, Op::maybe_scope_counter_to_clock and Counter::increment contain no checked i64 addition (`+` lowers to AddWithOverflow and panics in builds with overflow checks): an overflowing counter must not make a loaded document unreadable")
+    targets = ("automerge::op_set2::op::Op::fix_counter", "automerge::op_set2::op::Op::maybe_scope_counter_to_clock", "automerge::value::Counter::increment")
+    n = 0
+    for tname in targets:
+        last = tname.split("::")[-1]
+        P = [p for p in f.fns if (norm_fn(p) == tname or (last == "maybe_scope_counter_to_clock" and norm_fn(p).endswith("::" + last))) and f.fns[p]["ckey"] == ("automerge", "lib")]
+        if not P:
+            P = [p for p in f.fns if norm_fn(p) == tname and f.fns[p]["ckey"][0] == "automerge"]
+        if not P:
+            raise facts.AnchorMissing(tname)
+        b = cfg.body(f.fns[sorted(P)[0]])
+        ctx.analysed_fns.add(sorted(P)[0])
+        n += 1
+        checked = [st["sp"] for blk in b.blocks if not blk.get("cleanup") for st in blk["st"] if st["rv"]["k"] == "Bin" and st["rv"]["op"] in ("Add", "AddWithOverflow", "Sub", "SubWithOverflow")
+                   and any("i64" in b.local_ty((o.get("c") or o.get("m") or {"l": 0})["l"]) for o in st["rv"]["o"] if (o.get("c") or o.get("m")) is not None)]
+        wraps = any((norm_fn(t.get("fn")) or "").endswith("wrapping_add") for _, t in b.calls())
+        ok = not checked and wraps
+        ctx.ob("R7-counter", "%s|wrapping sum" % tname.split("::")[-1], ok, (checked[0] if checked else b.rec["sp"]), "wrapping_add only" if ok else
+               "a counter's increments are summed with a checked `+`: put(counter(i64::MAX)), increment(1) saves and loads, and the first read of the loaded document panics in builds with overflow checks")
+    ctx.floor("counter sums", n, 3)
